@@ -378,7 +378,7 @@ func c06Exec(t *testing.T, r *kit.Run) func(wProg) kit.Outcome {
 		if obs.pending > 0 {
 			o.Classes = append(o.Classes, "O-granted")
 		}
-		if fail != "" {
+		if fail != "" && res.Viol == nil {
 			o.Skip = true
 			fmt.Println("C06 bubble failure (not judged here):", firstLine(fail))
 			return o
@@ -706,7 +706,7 @@ func c07Exec(t *testing.T, r *kit.Run) func(wProg) kit.Outcome {
 		if p.Cfg.MaxSubs > 0 {
 			o.Classes = append(o.Classes, "low-subscriber-limit")
 		}
-		if fail != "" {
+		if fail != "" && res.Viol == nil {
 			o.Skip = true
 			fmt.Println("C07 bubble failure (not judged here):", firstLine(fail))
 			return o
